@@ -15,7 +15,13 @@ Definition enct_eqb (a b : enct) : bool :=
 Record oblk := { o_dlen : N; o_enc : enct; o_len : N; o_rclass : N; o_req : bool }.
 
 Inductive case :=
-| Case (cw cr : cfg) (t : enct) (lvl : Z) (slen scap : N) (wclass : N) (blocks : list oblk).
+| Case (cw cr : cfg) (t : enct) (lvl : Z) (slen scap : N) (wclass : N) (dmg : N) (blocks : list oblk).
+
+(* dmg = k > 0: between writing and reading the stored bytes of block k (1-based) were damaged on disk (bit flip /
+   truncated frame).  Decoders are pure functions in the model - a failing Decompress leaves no state behind
+   (GoProbe.C02.Proofs.read_block_local) - so every OTHER block reads exactly as without the damage; what the
+   damaged block itself yields is the libraries' business and is not compared. *)
+Definition damaged (dmg : N) (j : nat) : bool := (N.of_nat j + 1 =? dmg)%N.
 
 Definition blk_base (j : nat) : int := Uint63.lsl (Uint63.of_Z (Z.of_nat j)) 21.
 Definition blk_of (i : int) : nat := Z.to_nat (Uint63.to_Z (Uint63.lsr i 21)).
@@ -50,7 +56,7 @@ Fixpoint all2 {A C} (f : A -> C -> bool) (a : list A) (b : list C) : bool :=
 
 Definition corr_model (k : case) : bool :=
   match k with
-  | Case cw cr t lvl slen scap wclass blocks =>
+  | Case cw cr t lvl slen scap wclass dmg blocks =>
     let datas := mapi (fun j o => nlist (fun i => TD (Uint63.add i (blk_base j))) (o_dlen o)) 0 blocks in
     (* frame length: the stored length when the block was stored compressed; when the writer fell back to the
        null encoder the frame was longer than the data (its exact length is not observable) *)
@@ -67,6 +73,7 @@ Definition corr_model (k : case) : bool :=
       && all2 (fun b o => enct_eqb (b_enc b) (o_enc o) && (N.of_nat (b_len b) =? o_len o)%N
                           && (N.of_nat (b_raw b) =? o_dlen o)%N) (f_hdr g) blocks
       && all2 (fun jd o =>
+                 if damaged dmg (fst jd) then true else
                  match read_block TZ lib cr (f_bytes g) (f_hdr g) (fst jd) with
                  | Ok d' => (o_rclass o =? 0)%N && Bool.eqb (list_eqb tok_eqb d' (snd jd)) (o_req o)
                  | Err => (o_rclass o =? 1)%N
@@ -83,26 +90,29 @@ Definition corr_model (k : case) : bool :=
    every block reads back exactly under every configuration. *)
 Definition corr_closed (k : case) : bool :=
   match k with
-  | Case cw cr t lvl slen scap wclass blocks =>
+  | Case cw cr t lvl slen scap wclass dmg blocks =>
     (wclass =? 0)%N
-    && forallb (fun o =>
-                  (o_rclass o =? 0)%N && o_req o
+    && forallb (fun jo => let o := snd jo in
+                  (damaged dmg (fst jo) || (o_rclass o =? 0)%N && o_req o)
                   && (if (o_dlen o =? 0)%N then enct_eqb (o_enc o) ENull && (o_len o =? 0)%N
                       else if enct_eqb (o_enc o) ENull then (o_len o =? o_dlen o)%N
-                      else enct_eqb (o_enc o) t && (1 <=? o_len o)%N && (o_len o <=? o_dlen o)%N)) blocks
+                      else enct_eqb (o_enc o) t && (1 <=? o_len o)%N && (o_len o <=? o_dlen o)%N))
+               (mapi (fun j o => (j, o)) 0 blocks)
   end.
 
 Definition corr (k : case) : bool :=
   match k with
-  | Case _ _ _ _ _ scap _ blocks =>
+  | Case _ _ _ _ _ scap _ _ blocks =>
     if existsb (fun o => (big_threshold <? o_dlen o)%N) blocks || (big_threshold <? scap)%N
     then corr_closed k else corr_model k
   end.
 
 (* the specification, on the observations only: the writer build stored every block and the reader build read
-   every block back exactly *)
+   every block back exactly - every block but a deliberately damaged one, whatever the reader's build *)
 Definition holds (k : case) : bool :=
   match k with
-  | Case _ _ _ _ _ _ wclass blocks =>
-    (wclass =? 0)%N && forallb (fun o => (o_rclass o =? 0)%N && o_req o) blocks
+  | Case _ _ _ _ _ _ wclass dmg blocks =>
+    (wclass =? 0)%N
+    && forallb (fun jo => damaged dmg (fst jo) || (o_rclass (snd jo) =? 0)%N && o_req (snd jo))
+               (mapi (fun j o => (j, o)) 0 blocks)
   end.
